@@ -313,6 +313,9 @@ func (dn *dirNode) fillStatFrom(name string) *MemInfo {
 
 // dirEntries returns a slice of fs.DirEntry from a directory ordered by name.
 func (dn *dirNode) dirEntries() []fs.DirEntry {
+	avfs.VerifBatchBegin()
+	defer avfs.VerifBatchEnd()
+
 	l := len(dn.children)
 	if l == 0 {
 		return nil
